@@ -65,6 +65,17 @@ impl super::Debugger {
             .verif_find_places_in_line_range(file_tpl, start_line, end_line)
     }
 
+    pub fn verif_function_inline_ranges(
+        &self,
+        unit_idx: usize,
+        die_offset: usize,
+    ) -> Result<Vec<(u64, u64)>, Error> {
+        Ok(self
+            .debugee
+            .program_debug_info()?
+            .verif_function_inline_ranges(unit_idx, die_offset))
+    }
+
     pub fn verif_prolog_end_place(
         &self,
         unit_idx: usize,
